@@ -104,8 +104,13 @@ type checkCfg struct {
 	NoReplay  bool
 }
 
+// curProp: the property being checked (clauses of callee contracts that are labelled for
+// other properties only are not assumed at call sites).
+var curProp string
+
 func runCheck(cfg checkCfg) int {
 	t0 := time.Now()
+	curProp = cfg.Prop
 	prog, err := Load(nil)
 	if err != nil {
 		fmt.Println("LOAD ERROR:", err)
@@ -194,6 +199,27 @@ func runCheck(cfg checkCfg) int {
 		}
 	}
 	DischargeAll(todo, pre, tmp, timeout, needTwo, 16)
+	// second stage for byte-string reasoning: hash injectivity (collision resistance) and
+	// cancellation instances, only where the first stage did not succeed
+	var again []*VC
+	for _, vc := range todo {
+		if !vc.ExpectSat && vc.Result != "unsat" && len(vc.Pairwise) > 0 {
+			if vc.FullAsserts != nil {
+				vc.Asserts, vc.FullAsserts = vc.FullAsserts, nil
+			}
+			vc.Asserts = append(vc.Asserts[:len(vc.Asserts):len(vc.Asserts)], vc.Pairwise...)
+			vc.Result, vc.Solver, vc.Model, vc.Agree, vc.UsedPairwise = "", "", "", 0, true
+			again = append(again, vc)
+		}
+	}
+	if len(again) > 0 {
+		DischargeAll(again, pre, tmp, timeout, needTwo, 16)
+		for _, vc := range again {
+			if vc.PairwiseInj && vc.Result == "unsat" {
+				assumed["collision resistance: H(x) = H(y) ==> x = y is used as an axiom for the hash function (obligations of "+vc.Func+")"] = true
+			}
+		}
+	}
 	// vacuity after a call: an alarm only if the contract made a FEASIBLE path infeasible
 	var pres []*VC
 	back := map[*VC]*VC{}
